@@ -131,7 +131,41 @@ def decodeStr (b : BaseN) (s : String) : Option (List UInt8) := b.decode s.toLis
 
 end BaseN
 
+/-! ### byte strings as symbol strings
+
+`data-encoding` reads and writes *bytes*.  A Rust `&str` is modelled by its
+UTF-8 bytes; byte `x` is looked up as the character `U+00xx`, so every byte
+≥ 0x80 (any part of a multi-byte character) is not a symbol of any alphabet. -/
+
+/-- The byte written for a symbol (symbols are ASCII). -/
+def byteOfChar (c : Char) : UInt8 := UInt8.ofNat c.toNat
+
+/-- Byte `x` seen as the character `U+00xx`. -/
+def charOfByte (x : UInt8) : Char := Char.ofNat x.toNat
+
+namespace BaseN
+
+/-- `Encoding::encode` as bytes (the UTF-8 bytes of the produced `String`). -/
+def encodeBytes (b : BaseN) (bs : List UInt8) : List UInt8 := (b.encode bs).map byteOfChar
+
+/-- `Encoding::decode(input: &[u8])`. -/
+def decodeBytes (b : BaseN) (s : List UInt8) : Option (List UInt8) := b.decode (s.map charOfByte)
+
+/-- The translation seen on bytes. -/
+def translateByte (b : BaseN) (x : UInt8) : UInt8 := byteOfChar (b.translate (charOfByte x))
+
+/-- All symbols are ASCII (true of every spec below: `*_ascii`). -/
+def Ascii (b : BaseN) : Prop := ∀ c ∈ b.alphabet, c.toNat < 128
+
+end BaseN
+
 /-! ### ASCII case mapping (Rust `to_ascii_uppercase` / `to_ascii_lowercase`) -/
+
+/-- `u8::to_ascii_uppercase` -/
+def asciiUpperByte (x : UInt8) : UInt8 := if 97 ≤ x ∧ x ≤ 122 then x - 32 else x
+
+/-- `u8::to_ascii_lowercase` -/
+def asciiLowerByte (x : UInt8) : UInt8 := if 65 ≤ x ∧ x ≤ 90 then x + 32 else x
 
 /-- `char::to_ascii_uppercase`: only `a..z` change. -/
 def asciiUpper (c : Char) : Char :=
